@@ -123,6 +123,9 @@ inline void install_fault_handler() {
   sa.sa_flags = SA_SIGINFO;
   sigaction(SIGSEGV, &sa, nullptr);
   sigaction(SIGBUS, &sa, nullptr);
+  sigaction(SIGABRT, &sa, nullptr);  // assert() inside amc, std::terminate: reported as CRASH with the context
+  sigaction(SIGFPE, &sa, nullptr);
+  sigaction(SIGILL, &sa, nullptr);
 }
 
 }  // namespace c20
